@@ -19,7 +19,10 @@ MANIFEST = dict(
          "distort=False must not reach Distort or the root finder; (3) tangent-plane deprojection/projection (phi = atan2(x,-y), "
          "theta = atan(180/(pi R)), R_theta = (180/pi)/tan theta, x = R sin phi, y = -R cos phi), the spherical rotation (reverse "
          "= R, forward = R^T), the rotation matrix vs Calabretta & Greisen eq. 2/5, pole = CRVAL for theta0 = 90, longitude fold "
-         "into [0,360) with >= at the open end, scalar and array arms equal as terms; (4) PV index -> power table vs the TPV "
+         "into [0,360): the returned longitude as a case-distinction term T(L) of the rotated longitude L (if tests, masked stores through boolean masks or "
+         "where / nonzero / flatnonzero index arrays, three-argument where, putmask / copyto / ufunc where=, arithmetic with the mask, helpers) is L + 360 k in "
+         "[0,360) for every L in [-180,180], decided on the term's own case partition, also when L + 360 rounds to 360.0 (>= at the open end, upper wrap after the "
+         "lower one), scalar and array arms equal as terms; (4) PV index -> power table vs the TPV "
          "convention (end to end: header keys -> matrix -> polynomial), SIP A_p_q -> u^p v^q, prefix table per projection, "
          "coefficient count drives model detection; (5) constructor wiring (CRPIX, CD, CD^-1, pole, defaults LONPOLE=180, "
          "theta0=90); (6) object-state discipline: every attribute written by a conversion call is a lazy cache behind a "
@@ -134,6 +137,7 @@ _LOGIC_UFUNCS = {"numpy.logical_and": ast.BitAnd, "numpy.bitwise_and": ast.BitAn
                  "operator.and_": ast.BitAnd, "operator.or_": ast.BitOr}
 _NOT_UFUNCS = ("numpy.logical_not", "numpy.invert", "numpy.bitwise_not", "operator.invert", "operator.inv")
 
+SUMMED = sp.Function("SUMMED")                                   # SUMMED(a + b): the value of the sum, kept apart from a sum it is a term of
 NPTS = sp.Symbol("NPTS", integer=True, positive=True)          # number of points of a (non-empty) array input
 IDX = sp.Symbol("IDX", integer=True, nonnegative=True)          # index of the generic point of a loop over all points
 FORALL = sp.Function("FORALL")                                   # FORALL(IDX, t): the array whose element IDX is t, for every point
@@ -434,6 +438,7 @@ class _Env(symx.Env):
             if n in (0, 1) and not isinstance(n, bool):
                 cnt = self._count(a)
                 if cnt is not None:
+                    self._sel_mask = cnt.mask
                     if (op, n) in ((ast.Gt, 0), (ast.NotEq, 0), (ast.GtE, 1)):
                         return "mask"
                     if (op, n) in ((ast.Eq, 0), (ast.Lt, 1), (ast.LtE, 0)):
@@ -442,6 +447,7 @@ class _Env(symx.Env):
             return None
         cnt = self._count(t)
         if cnt is not None:
+            self._sel_mask = cnt.mask
             return "mask"
         # c.any() / numpy.any(c) / any(c)
         arg = None
@@ -459,22 +465,41 @@ class _Env(symx.Env):
             if isinstance(v, _IdxSet):
                 raise symx.Unsupported("symx: `%s` asks whether an index is non-zero, not whether anything is selected, at %s" % (norm(t), self.where(t)))
             if isinstance(v, symx.Mask):
+                self._sel_mask = v
                 return "mask"
         return None
+
+    def _noop_when_empty(self, s, m):
+        """the statement only stores through the selection m: nothing happens when m selects nothing"""
+        if isinstance(s, ast.Pass) or (isinstance(s, ast.Expr) and isinstance(s.value, ast.Constant)):
+            return True
+        if m is None or not isinstance(s, (ast.Assign, ast.AugAssign)):
+            return False
+        for t in (s.targets if isinstance(s, ast.Assign) else [s.target]):
+            if not isinstance(t, ast.Subscript):
+                return False
+            try:
+                idx = self.ev_index(t.slice)
+            except symx.Unsupported:
+                return False
+            if not (isinstance(idx, symx.Mask) and idx.cond == m.cond):
+                return False
+        return True
 
     @staticmethod
     def _no_effect(stmts):
         return all(isinstance(s, ast.Pass) or (isinstance(s, ast.Expr) and isinstance(s.value, ast.Constant)) for s in stmts)
 
     def exec_if(self, st, cond):
+        self._sel_mask = None
         k = self._sel_test(st.test)
         if k == "nomask":
-            # `if nothing is selected: pass  else: masked updates`
-            if not self._no_effect(st.body):
+            # `if nothing is selected: pass  else: masked updates`; updates through the empty selection itself do nothing
+            if not all(self._noop_when_empty(s_, self._sel_mask) for s_ in st.body):
                 raise symx.Unsupported("symx: statements that run only when `%s` selects nothing at %s" % (norm(st.test)[:60], self.where(st)))
             return self.exec_body(st.orelse, cond)
         if k == "mask":
-            if not self._no_effect(st.orelse):
+            if not all(self._noop_when_empty(s_, self._sel_mask) for s_ in st.orelse):
                 raise symx.Unsupported("symx: statements that run only when `%s` selects nothing at %s" % (norm(st.test)[:60], self.where(st)))
             return self.exec_body(st.body, cond)
         return super().exec_if(st, cond)
@@ -507,7 +532,42 @@ class _Env(symx.Env):
     def binop(self, op, a, b, node):
         if isinstance(a, (_IdxSet, _Count)) or isinstance(b, (_IdxSet, _Count)):
             raise symx.Unsupported("symx: arithmetic on an index array / a count at %s" % self.where(node))
+        if isinstance(op, (ast.Mult, ast.Add, ast.Sub)):
+            # a boolean mask in arithmetic is 1 where the condition holds and 0 elsewhere: x + 360 * (x < 0)
+            if isinstance(a, symx.Mask) and symx._is_expr(b):
+                a = symx._as_expr(a)
+            elif isinstance(b, symx.Mask) and symx._is_expr(a):
+                b = symx._as_expr(b)
+        c360 = getattr(self.se, "sym360", None)
+        if c360 is not None and isinstance(op, (ast.Add, ast.Sub)) and isinstance(a, sp.Add) and a.has(c360) and isinstance(b, sp.Basic) and b.has(c360):
+            a = SUMMED(a)          # (x + 360 m) - 360 n: the inner sum is computed (and rounded) first; sympy would merge the two sums
         return super().binop(op, a, b, node)
+
+    def _masked_call(self, c, full0):
+        """numpy calls that update an array where a condition holds: ufunc(..., out=x, where=c), numpy.putmask(x, c, v), numpy.copyto(x, v, where=c)"""
+        wh = kwarg(c, "where")
+        if full0 == "numpy.putmask" and len(c.args) == 3 and not c.keywords:
+            dst, m, v = c.args[0], self.ev(c.args[1]), self.ev(c.args[2])
+        elif full0 == "numpy.copyto" and len(c.args) == 2 and wh is not None and len(c.keywords) == 1:
+            dst, m, v = c.args[0], self.ev(wh), self.ev(c.args[1])
+        elif wh is not None and full0.startswith("numpy."):
+            if isinstance(wh, ast.Constant) and wh.value is True:
+                return NotImplemented
+            c2 = ast.copy_location(ast.Call(func=c.func, args=c.args, keywords=[k for k in c.keywords if k.arg not in ("where", "out")]), c)
+            nin = 2 if call_name(c) in ("add", "subtract", "multiply", "divide", "true_divide", "power", "mod", "fmod", "arctan2", "minimum", "maximum", "fmin", "fmax") else 1
+            dst = kwarg(c, "out") or (c.args[nin] if len(c.args) > nin else None)
+            if dst is None:
+                raise symx.Unsupported("symx: `%s` leaves the elements outside `where` uninitialised at %s" % (norm(c)[:60], self.where(c)))
+            c2.args = c2.args[:nin]
+            m, v = self.ev(wh), self.ev(c2)
+        else:
+            return NotImplemented
+        old = self.ev(symx._load(dst))
+        if isinstance(m, _IdxSet) or not isinstance(m, symx.Mask) or not symx._is_expr(v) or not symx._is_expr(old):
+            raise symx.Unsupported("symx: masked update `%s` at %s" % (norm(c)[:60], self.where(c)))
+        new = sp.Piecewise((symx._as_expr(v), m.cond), (symx._as_expr(old), True))
+        self.assign(dst, new, c)
+        return None if full0 in ("numpy.putmask", "numpy.copyto") else new
 
     def subscript(self, base, idx, e):
         if isinstance(base, _IdxSet) and base.tup:
@@ -785,6 +845,9 @@ class _Env(symx.Env):
         d0 = dotted_name(f)
         full0 = self.se.repo.resolve_name(self.mod, d0) if d0 else ""
         r_ = self._selection_call(c, self._full(f))
+        if r_ is not NotImplemented:
+            return r_
+        r_ = self._masked_call(c, self._full(f))
         if r_ is not NotImplemented:
             return r_
         if full0 == "operator.index" and len(c.args) == 1 and not c.keywords:
@@ -1323,20 +1386,55 @@ def tangent(chk, repo):
         want0 = sp.Function("_rotate_0")(phi, theta, _mat(_tr(RM)))
         got0 = _peel_default(r[0]) if isinstance(r[0], sp.Basic) else r[0]
         okf = getattr(got0, "func", None) is not None and got0.func.__name__ == "_rotate_0" and len(got0.args) == 3
-        chk.ob("R10.5", "image2sph::rotation-is-applied-in-reverse", (okf and got0.args[2] == _mat(_tr(RM))) or unk(r[0]), fi.where(),
-               "native -> celestial uses the transposed (reverse) rotation matrix")
+        call = None
+        if not okf:
+            # the longitude is not `rotated longitude, folded by case distinctions`: look at the call of the rotation itself
+            call, r2, err = _rotation_run(repo, fi, False)
+            if call is not None and call[0] == "Rotate":
+                call = None          # the arguments of _rotate are what the rules below are about
+        if call is not None and len(call[1]) == 3 and all(symx._is_expr(a_) for a_ in call[1][:2]) and symx._is_matrix(call[1][2]):
+            a_lon, a_lat, a_mat = call[1]
+            chk.ob("R10.5", "image2sph::rotation-is-applied-in-reverse", symx._opaque_arg(a_mat) == _mat(_tr(RM)), fi.where(),
+                   "native -> celestial uses the transposed (reverse) rotation matrix")
+            eq, d = symx.equal(a_lon, phi)
+            chk.ob("R10.5", "image2sph::native-longitude", eq or unk(symx._as_expr(a_lon)), fi.where(), "phi = atan2(x, -y), converted to degrees and back to radians exactly once%s" % ("" if eq else " (differs by %s)" % str(d)[:160]))
+            eq = a_lat == theta or symx.equal(a_lat, theta)[0]
+            chk.ob("R10.5", "image2sph::native-latitude", eq or unk(symx._as_expr(a_lat)), fi.where(),
+                   "theta = atan(180/(pi R)) for R > 0 and exactly 90 deg at the reference point (R = 0)%s" % ("" if eq else " (got %s)" % str(a_lat)[:200]))
+            eq = isinstance(r2, tuple) and len(r2) == 2 and r2[1] == BROT
+            chk.ob("R10.5", "image2sph::latitude-from-rotation", eq or unk(r2[1] if isinstance(r2, tuple) and len(r2) == 2 else None), fi.where(), "latitude is the rotated latitude, unchanged")
+            okf = None
+        else:
+            chk.ob("R10.5", "image2sph::rotation-is-applied-in-reverse", (okf and got0.args[2] == _mat(_tr(RM))) or unk(r[0]), fi.where(),
+                   "native -> celestial uses the transposed (reverse) rotation matrix")
         if okf:
             eq, d = symx.equal(got0.args[0], phi)
             chk.ob("R10.5", "image2sph::native-longitude", eq or unk(got0.args[0]), fi.where(), "phi = atan2(x, -y), converted to degrees and back to radians exactly once%s" % ("" if eq else " (differs by %s)" % str(d)[:160]))
             eq = got0.args[1] == theta or symx.equal(got0.args[1], theta)[0]
             chk.ob("R10.5", "image2sph::native-latitude", eq or unk(got0.args[1]), fi.where(),
                    "theta = atan(180/(pi R)) for R > 0 and exactly 90 deg at the reference point (R = 0)%s" % ("" if eq else " (got %s)" % str(got0.args[1])[:200]))
-        eq = isinstance(r[1], sp.Basic) and (r[1] == want1 or symx.equal(r[1], want1)[0])
-        chk.ob("R10.5", "image2sph::latitude-from-rotation", eq or unk(r[1]), fi.where(), "latitude is the rotated latitude, unchanged")
+        if okf is not None:
+            eq = isinstance(r[1], sp.Basic) and (r[1] == want1 or symx.equal(r[1], want1)[0])
+            chk.ob("R10.5", "image2sph::latitude-from-rotation", eq or unk(r[1]), fi.where(), "latitude is the rotated latitude, unchanged")
     if ok and isinstance(res[True], tuple) and len(res[True]) == 2 and (_unknown(res[True]) or _unknown(res[False])):
         eq = None
     else:
         eq = all(_arms_equal(a, b) for a, b in zip(res[True], res[False])) if ok and isinstance(res[True], tuple) else False
+        if not eq and ok and isinstance(res[True], tuple) and len(res[True]) == 2:
+            # the two arms spell the fold differently (if tests / masked stores / arithmetic with the mask): the result is
+            # fold(rotation(arguments)), so the arms agree when the arguments, the use of the rotated latitude and the two folds as functions
+            # of the rotated longitude agree
+            runs = {sc: _rotation_run(repo, fi, sc, sym360=True) for sc in (True, False)}
+            if all(c_ is not None and isinstance(r_, tuple) and len(r_) == 2 and all(isinstance(t_, sp.Basic) for t_ in r_) for c_, r_, _ in runs.values()):
+                (ca, ra, _), (cb, rb, _) = runs[True], runs[False]
+                args_same = ca[0] == cb[0] and len(ca[1]) == len(cb[1]) and all(
+                    (symx._is_matrix(u) and symx._is_matrix(v) and symx._opaque_arg(u) == symx._opaque_arg(v)) or
+                    (symx._is_expr(u) and symx._is_expr(v) and _arms_equal(symx._as_expr(u), symx._as_expr(v))) for u, v in zip(ca[1], cb[1]))
+                if _unknown(ra) or _unknown(rb):
+                    eq = None
+                elif args_same:
+                    sames = [_same_fold(u, v) for u, v in zip(ra, rb)]
+                    eq = True if all(v is True for v in sames) else (False if any(v is False for v in sames) else None)
     chk.ob("R10.7", "image2sph::scalar-and-array-arms-agree", eq, fi.where(), "the scalar arm and the array arm denote the same terms")
     _fold(chk, repo, fi)
     # projection
@@ -1402,7 +1500,7 @@ class _FoldEval:
     """evaluation of a case-distinction term in L (and the period C360) at a point a + b*eps of the extended number line: eps is a
     positive infinitesimal, so p - eps / p + eps are the floating-point neighbours of p.  With `rounding` an addition that moves such
     a number away from its `a` (e.g. -eps + 360) may absorb the eps part (the nearest double of 360 - 1e-20 is 360.0) or keep it
-    (360 - 6e-14 is a double): both outcomes are followed, the same one wherever the same sum occurs.  Cancellation to a = 0 is exact."""
+    (360 - 6e-14 is a double): both outcomes are followed, the same one wherever the same numbers are added.  Cancellation to a = 0 is exact."""
 
     def __init__(self, lval, choose=None):
         self.lval = lval
@@ -1420,13 +1518,16 @@ class _FoldEval:
                 if self.cond(c):
                     return self.num(v)
             raise _NoVerdict("no arm of %s applies" % str(e)[:80])
+        if e.func == SUMMED:
+            return self.num(e.args[0])
         if isinstance(e, sp.Add):
             vals = [self.num(x) for x in e.args]
             a = sum((v[0] for v in vals), sp.Integer(0))
             b = sum((v[1] for v in vals), sp.Integer(0))
             carried = [v for v in vals if v[1] != 0]
             if self.choose is not None and b != 0 and a != 0 and any(v[0] != a for v in carried):
-                if self.choose(e):
+                # the same operands give the same rounded sum wherever they are added (sympy moves comparisons into case distinctions)
+                if self.choose(tuple(sorted((v for v in vals if v != (0, 0)), key=str))):
                     b = sp.Integer(0)
             return (a, b)
         if isinstance(e, sp.Mul):
@@ -1553,6 +1654,10 @@ def _fold_outcomes(T, lval, limit=256):
     return out
 
 
+def _unsummed(t):
+    return t.replace(lambda x: x.func == SUMMED, lambda x: x.args[0])
+
+
 def _fold_analyse(T, lo=-180, hi=180):
     """decides, for every L in [lo, hi] and its two floating-point neighbours, whether T(L) is L + 360 k and lies in [0,360).
     Case partition at the term's own comparison points: between two neighbouring points every comparison has one outcome, the term is
@@ -1560,6 +1665,7 @@ def _fold_analyse(T, lo=-180, hi=180):
     Returns {aspect: (ok, message)} with ok None when the term is outside the fragment this analysis understands."""
     res = {}
     try:
+        TR, T = T, _unsummed(T)          # the order of additions matters for rounding only
         if T.free_symbols - {LROT, C360} or T.atoms(sp.core.function.AppliedUndef):
             raise _NoVerdict("the longitude is not a case distinction over the rotated longitude alone: %s" % str(T)[:120])
         lo, hi = sp.Integer(lo), sp.Integer(hi)
@@ -1588,6 +1694,10 @@ def _fold_analyse(T, lo=-180, hi=180):
         # the floating-point neighbours of the points
         numeric_period = any(isinstance(x, sp.Number) and x != 0 and any(y.has(LROT) for y in e.args) for e in T.atoms(sp.Add) for x in e.args)
         bad_f = []
+        T = TR
+        if any(len(e.args) > 2 for e in T.atoms(sp.Add)):
+            # x += 360 * (x < 0); x -= 360 * (x >= 360) becomes one sum of three terms: which addition rounds first is no longer visible
+            raise _NoVerdict("the term is a sum of more than two terms, the order of the additions (and so their rounding) is not visible in it")
         for p in pts:
             for sgn in (-1, 1):
                 for v in _fold_outcomes(T, (p, sp.Integer(sgn))):
@@ -1605,30 +1715,67 @@ def _fold_analyse(T, lo=-180, hi=180):
     return res
 
 
-def _fold_term(repo, fi, scalar):
-    """the longitude image2sph returns as a term in the longitude the spherical rotation returns (LROT); (term, error text)"""
+def _same_fold(ta, tb):
+    """two case-distinction terms in L denote the same function of L on the whole real line (exact arithmetic): decided on the common
+    case partition, point by point and interval by interval (symbolically there).  True / False / None (outside the fragment)."""
+    if ta == tb:
+        return True
+    try:
+        ta, tb = _unsummed(ta), _unsummed(tb)
+        for t in (ta, tb):
+            if t.free_symbols - {LROT, C360} or t.atoms(sp.core.function.AppliedUndef):
+                return None
+        pts = sorted(_fold_breakpoints(ta) | _fold_breakpoints(tb))
+        if not pts:
+            pts = [sp.Integer(0)]
+        for p in pts:
+            if _FoldEval((p, sp.Integer(0))).num(ta) != _FoldEval((p, sp.Integer(0))).num(tb):
+                return False
+        reps = [pts[0] - 1] + [(p + q) / 2 for p, q in zip(pts, pts[1:])] + [pts[-1] + 1]
+        for m in reps:
+            ea, eb = (sp.expand(_FoldEval((m, sp.Integer(0))).resolve(t).subs(C360, 360)) for t in (ta, tb))
+            if ea != eb:
+                return False
+        return True
+    except _NoVerdict:
+        return None
+
+
+def _rotation_run(repo, fi, scalar, sym360=False):
+    """image2sph evaluated with the spherical rotation replaced by its summary (it returns the pair LROT, BROT and its arguments are
+    recorded): (arguments of the call in the callee's parameter order, result, error text)"""
     x, y = symx.symbols("x", "y")
-    err = "image2sph does not call the spherical rotation"
     for helper in ("_rotate", "Rotate"):
         if not repo.has(W + helper):
             continue
         se = _mkse(repo, (), opaque_tests=scalar)
-        se.sym360 = C360
+        if sym360:
+            se.sym360 = C360
         se.input_kind = "scalar" if scalar else "array"
         se.coord_inputs = {x, y}
         se.summaries = {repo.func(W + helper).qualname: lambda bound: (LROT, BROT)}
         try:
             r = se.run(fi, {"x": x, "y": y, "self.rotation_matrix": RM}, {})
         except symx.Unsupported as e:
-            return None, str(e)
+            return None, None, str(e)
         if not se.calls:
             continue
-        if not (isinstance(r, tuple) and len(r) == 2 and isinstance(r[0], sp.Basic)):
-            return None, "image2sph returns %s" % str(r)[:80]
-        if _unknown(r[0]):
-            return None, "the longitude depends on a test or value the evaluator cannot see into: %s" % str(r[0])[:120]
-        return r[0], ""
-    return None, err
+        if len(se.calls) != 1 or not se.calls[0][2]:
+            return None, None, "the spherical rotation is called %d times or under a condition" % len(se.calls)
+        return (helper, list(se.calls[0][1].values())), r, ""
+    return None, None, "image2sph does not call the spherical rotation"
+
+
+def _fold_term(repo, fi, scalar):
+    """the longitude image2sph returns as a term in the longitude the spherical rotation returns (LROT); (term, error text)"""
+    call, r, err = _rotation_run(repo, fi, scalar, sym360=True)
+    if call is None:
+        return None, err
+    if not (isinstance(r, tuple) and len(r) == 2 and isinstance(r[0], sp.Basic)):
+        return None, "image2sph returns %s" % str(r)[:80]
+    if _unknown(r[0]):
+        return None, "the longitude depends on a test or value the evaluator cannot see into: %s" % str(r[0])[:120]
+    return r[0], ""
 
 
 def _fold(chk, repo, fi):
